@@ -67,4 +67,34 @@ example :
          owsBefore := [32] }]
     specGzip l = true ∧ shouldGzip (some (renderAe l)) = .ok true := by decide
 
+/-- "gzip is never chosen for a client that did not allow it", in full: whenever `should_gzip`
+answers true for a grammatical header, some element grants gzip a NON-ZERO quality — a `gzip`
+element itself, or, when no element names gzip, a `*` element — and that quality is at least the
+one identity gets. An explicit `gzip;q=0` is never overridden by `*`, and `*;q=0` alone never
+yields gzip. -/
+theorem C16_true_only_if_allowed (l : List AeElem) (h : ∀ e ∈ l, e.wf)
+    (ht : shouldGzip (some (renderAe l)) = .ok true) :
+    ∃ q, 0 < q ∧
+      (qualityOf [103, 122, 105, 112] l = some q ∨
+       (qualityOf [103, 122, 105, 112] l = none ∧ qualityOf [42] l = some q)) ∧
+      prefIdentity l ≤ 1 + q := by
+  rw [C16_decision l h] at ht
+  have hs : specGzip l = true := by simpa using ht
+  unfold specGzip prefGzip at hs
+  cases hg : qualityOf [103, 122, 105, 112] l with
+  | some q =>
+    simp only [hg] at hs
+    cases q with
+    | zero => simp at hs
+    | succ n => exact ⟨n + 1, by omega, Or.inl rfl, by simp at hs; omega⟩
+  | none =>
+    simp only [hg, Option.none_or] at hs
+    cases hst : qualityOf [42] l with
+    | none => simp [hst] at hs
+    | some q =>
+      simp only [hst] at hs
+      cases q with
+      | zero => simp at hs
+      | succ n => exact ⟨n + 1, by omega, Or.inr ⟨rfl, rfl⟩, by simp at hs; omega⟩
+
 end HS
